@@ -65,128 +65,34 @@ KIND_ACCESSOR = {'s': 'c_str', 'int': 'c_int', 'float': 'c_float', 'c': 'c_int',
 
 
 def check_print(P, ctx):
+    """print_to_with, decided by evaluating it on concrete format strings (cv/printmodel.py): literal runs, %%, every conversion letter
+    with flags / width / precision / length modifiers, specifications at the very start and end and adjacent ones, with exactly enough
+    arguments and with one too few"""
+    from . import printmodel
     fn = P.fn('print_to_with')
-    g = P.cfg(fn)
     ctx.fn(fn)
-    fmtp = ('param', 'fmt', 2)
-    tests = letter_tests(g, fmtp)
     s = site(fn)
-    # the terminator test of the specification scanner: the strchr inside the `while (not strchr(...)) fmt++` loop
-    term = [t for t in tests if len(t[1]) > 8]
+    bad, unsup, ncase = printmodel.eval_print(P)
+    ctx.stats['paths'] += ncase
+
+    def emit(rule, key, aspects, text):
+        msgs = [bad[a] for a in aspects if a in bad]
+        if unsup and not msgs:
+            ctx.undecided(rule, key, s, 'print_to_with leaves the evaluated fragment: ' + unsup)
+        else:
+            ctx.check(not msgs, rule, key, s, text + ' (%d format/argument combinations evaluated)' % ncase, msgs[:1] or None)
     rule = 'C14.specifier-table'
-    if len(term) != 1:
-        ctx.undecided(rule, 'terminators', s, 'cannot identify the conversion-letter set that ends a specification')
-        return
-    terminators = term[0][1]
-    # argument fetch
-    fetch = [n for n in g.live() if n.get('decl') and n['decl']['init'] is not None and any(ir.callee_name(c) == 'get' for c in ir.calls(n['decl']['init']))]
-    if len(fetch) != 1:
-        ctx.undecided(rule, 'fetch', s, 'argument fetch not found')
-        return
-    av = ('local', fetch[0]['decl']['name'])
-    # the tests that follow the fetch within one round of the scanning loop (reached from it without passing a loop header again);
-    # source line numbers are not used: code spliced back from a helper carries the helper's lines
-    heads = [n['id'] for n in g.live() if n['kind'] == 'join' and n.get('loop')]
-    after_fetch = g.reach_from(fetch[0]['id'], cut_nodes=heads)
-    branches = [t for t in tests if t is not term[0] and fetch[0]['id'] in g.reach_from(g.entry) and t[0]['id'] in after_fetch]
-    handled = {}
-    posv = ('param', 1)
-    for (cn, letters, pol) in branches:
-        body = branch_nodes(g, cn, pol)
-        fcalls = [(n, c) for n in body if n['expr'] is not None for c in ir.calls(n['expr']) if ir.callee_name(c) in ('format_to', 'show_to')]
-        key = ''.join(sorted(letters))
-        for L in letters:
-            handled.setdefault(L, []).append(key)
-        ok = len(fcalls) == 1
-        detail = []
-        what = 'conversion(s) %s are formatted by exactly one sink call that receives the fetched argument through the accessor of its kind, unchanged' % key
-        if ok:
-            n, c = fcalls[0]
-            nm = ir.callee_name(c)
-            if letters == {'$'}:
-                args = [ir.canon(a) for a in c[2]]
-                e = ir.canon(n['expr'])
-                ok = nm == 'show_to' and args == [av, ('param', 0), posv] and e[0] == 'assign' and e[2] == posv
-                what = '%$ hands the argument to show_to(arg, out, pos) and takes its position'
-            else:
-                args = [ir.noicast(a) for a in c[2]]
-                cargs = [ir.canon(a) for a in c[2]]
-                kind = 's' if letters == {'s'} else 'c' if letters == {'c'} else 'p' if letters == {'p'} else 'int' if letters <= set('diouxX') else 'float' if letters <= set('fFeEgGaA') else None
-                acc = KIND_ACCESSOR.get(kind)
-                want_arg = ir.canon(('call', ('func', acc), (('local', av[1], None),))) if acc else av
-                # the value is passed as fetched: no narrowing cast on the way into the variadic call
-                raw_last = args[3] if len(args) > 3 else None
-                has_cast = raw_last is not None and any(x[0] == 'cast' for x in ir.walk(raw_last))
-                ok = nm == 'format_to' and kind is not None and len(cargs) == 4 and cargs[0] == ('param', 0) and cargs[1] == posv and \
-                    cargs[2] == ('local', 'fmt_buf') and cargs[3] == want_arg and not has_cast
-                what = 'conversion(s) %s format the argument fetched with %s, passed unchanged, with the copied specification' % (key, acc or 'the raw pointer')
-                detail.append('call: %s' % ir.fmt(ir.canon(c)))
-                # position accounting: off = result; off < 0 -> FormatError; pos += off
-                offd = n.get('decl')
-                if ok and offd:
-                    ov = ('local', offd['name'])
-                    neg = [x for x in body if x['kind'] == 'cond' and ir.canon(x['expr']) == ir.canon(('bin', '<', ov, ('int', 0)))]
-                    add = [x for x in body if x['kind'] == 'stmt' and x['expr'] is not None and ir.canon(x['expr']) == ('assign', '+=', posv, ov)]
-                    okp = len(neg) == 1 and len(add) == 1 and throw_only(g, succ_of(neg[0], True)) and \
-                        g.nodes[succ_of(neg[0], True)]['why'] == ('throw', 'FormatError') and g.must_pass(add[0]['id'], through_edges=[(neg[0]['id'], False)])
-                    ctx.check(okp, 'C14.position', key, site(fn, n['line']), 'the count returned by the sink is added to the position exactly once; a negative count raises FormatError')
-                elif ok:
-                    ctx.refuted('C14.position', key, site(fn, n['line']), 'the sink\'s return value is not captured')
-        ctx.check(ok, rule, 'branch:' + key, site(fn, cn['line']), what, detail)
-    union = set(handled)
-    dup = {L: k for L, k in handled.items() if len(k) > 1}
-    ctx.check(union == terminators and not dup, rule, 'letters', s,
-              'the conversion letters that end a specification (%s) are exactly the letters some branch formats, each by one branch' % ''.join(sorted(terminators)),
-              ['handled: %s' % ''.join(sorted(union)), 'ending but unhandled: %s' % ''.join(sorted(terminators - union)),
-               'handled but never ending a specification: %s' % ''.join(sorted(union - terminators)), 'handled twice: %s' % dup])
-    # literal text and %%: copied text is output through format_to(out, pos, fmt_buf) / "%%" and counted
-    lit = [(n, c) for n in g.live() if n['expr'] is not None for c in ir.calls(n['expr']) if ir.callee_name(c) == 'format_to' and len(c[2]) == 3]
-    ok = len(lit) == 2
-    for n, c in lit:
-        a = [ir.canon(x) for x in c[2]]
-        ok = ok and a[0] == ('param', 0) and a[1] == posv and (a[2] == ('local', 'fmt_buf') or a[2] == ('str', '%%'))
-    ctx.check(ok, rule, 'literals', s, 'literal text is copied to the scratch buffer and written with the sink; %% is written as the two-character format "%%"')
-    # too few arguments
-    rule = 'C14.too-few-arguments'
-    iv = None
-    c = [c for c in ir.calls(fetch[0]['decl']['init']) if ir.callee_name(c) == 'get'][0]
-    st = ir.as_stack(c[2][1])
-    iv = ir.canon(st[1][0]) if st and st[0] == 'Int' else None
-    gd = guards_of(g, lambda cc, n_: True if iv is not None and cc == ir.canon(('bin', '>=', iv, ('call', ('func', 'len'), (('param', 'args', 3),)))) else None)
-    ok = iv is not None and dominated_by_guard(g, fetch[0]['id'], gd, 'FormatError') is not None
-    inc = [n for n in g.live() if n['kind'] == 'stmt' and n['expr'] is not None and ir.canon(n['expr']) in (('un', 'post++', iv), ('un', 'pre++', iv))]
-    ok = ok and len(inc) == 1 and g.must_pass(inc[0]['id'], [fetch[0]['id']]) and fetch[0]['id'] not in g.reach_from(fetch[0]['succ'][0][0], cut_nodes=[inc[0]['id']])
-    ctx.check(ok, rule, 'print_to_with', site(fn, fetch[0]['line']), 'each specification consumes the next argument (index advanced once per fetch) and `index >= len(args)` raises FormatError before the fetch')
-    # scratch buffer bound: malloc(strlen(fmt)+1); copies of at most (fmt-start)+1 bytes + terminator
-    rule = 'C14.scratch-bound'
-    N = util.Norm(P, fn)
-    ma = [c for n in g.live() if n['expr'] is not None for c in ir.calls(n['expr']) if ir.callee_name(c) == 'malloc']
-    ok = len(ma) == 1 and poly.from_expr(N.canon(ma[0][2][0])) == poly.Poly.atom('strlen(arg2)') + poly.Poly.const(1)
-    span = poly.Poly.atom('arg2') - poly.Poly.atom('start')
-    sdefs = util.single_defs(fn)
-
-    def one_level(e):
-        """a length held in a local that is defined once (size_t n = fmt - start) stands for its definition"""
-        t = ir.top_nocast(e)
-        if t[0] == 'local' and len(t) > 2 and t[2] in sdefs and t[1] not in ('start', 'fmt_buf'):
-            return sdefs[t[2]]
-        return e
-
-    def one_level_deep(e):
-        return ir.rebuild(e, lambda x: ir.nocast(one_level(x)) if x[0] == 'local' and len(x) > 2 else x)
-    for n in g.live():
-        if n['expr'] is None:
-            continue
-        for ev in util.expr_events(n['expr'], n):
-            if ev['t'] == 'call' and ev['name'] == 'memcpy' and N.canon(ev['args'][0]) == ('local', 'fmt_buf'):
-                ln = poly.from_expr(N.canon(one_level_deep(ev['args'][2])))
-                ok = ok and (ln - span).const_value() in (0, 1) and N.canon(ev['args'][1]) == ('local', 'start')
-            if ev['t'] == 'write':
-                l = N.canon(one_level_deep(ev['lhs']))
-                if l[0] == 'idx' and l[1] == ('local', 'fmt_buf'):
-                    ix = poly.from_expr(l[2])
-                    ok = ok and (ix - span).const_value() in (0, 1) and util.const_int(ev['rhs']) == 0
-    ctx.check(ok, rule, 'print_to_with', s, 'the scratch buffer holds strlen(fmt)+1 bytes; every copy into it is a piece of the format text (at most the text scanned so far plus the conversion letter) followed by a terminator inside the buffer')
+    emit(rule, 'letters', [a for a in bad if a.startswith('spec:')], 'the conversion letters that end a specification (%s) are exactly the letters some branch formats, each by one branch' % ''.join(sorted(printmodel.LETTERS)))
+    for key, asp, what in (('branch:$', 'spec:$', '%$ shows the next argument with show_to'), ('branch:s', 'spec:s', '%s writes c_str of the next argument with the copied specification'),
+                           ('branch:int', 'spec:int', 'd i u o x X write c_int of the next argument (64-bit, unchanged) with the copied specification'),
+                           ('branch:float', 'spec:float', 'f F e E g G a A write c_float of the next argument with the copied specification'),
+                           ('branch:c', 'spec:c', '%c writes c_int of the next argument with the copied specification'), ('branch:p', 'spec:p', '%p writes the object pointer itself')):
+        emit(rule, key, [asp], what)
+    emit(rule, 'literals', ['literal', 'percent'], 'literal text is copied to the scratch buffer and written with the sink; %% is written as the two-character format "%%"')
+    for key in ('literal', 'percent', 'spec', 'show', 'returned'):
+        emit('C14.position', key, ['position'], 'every piece is written at the position the previous one left (the count the sink returns is added exactly once, %$ takes show_to\'s position) and the last position is returned')
+    emit('C14.too-few-arguments', 'print_to_with', ['too-few'], 'each specification consumes the next argument and one argument too few raises FormatError at that specification, after the earlier pieces')
+    emit('C14.scratch-bound', 'print_to_with', ['scratch'], 'the scratch buffer holds what the function requested from malloc; every store into it lies inside, and the caller\'s format string is never written')
     ctx.floor('C14.specifier-table', 8)
     ctx.floor('C14.position', 5)
 
@@ -430,7 +336,8 @@ def eval_container_show(P, T, is_map):
             if nm in ('format_to', 'format_to_va'):
                 if it.ev(e[2][0]) != OUT:
                     raise ShowMismatch('writes to something that is not the output it was given')
-                return sink(it.ev(e[2][1]), nm, it)
+                # (format_to returns the number of characters written, not a position)
+                return sink(it.ev(e[2][1]), nm, it) - it.ev(e[2][1])
             if nm == 'len' and it.ev(e[2][0]) == SELF:
                 return n
             raise cint.NoEval('call %s' % nm)
@@ -455,6 +362,57 @@ def eval_container_show(P, T, is_map):
         if r[1] != state['pos']:
             return n_eval, '%s: returns %s, the last write returned position %s' % (label, r[1], state['pos']), None
     return n_eval, None, None
+
+
+def check_show_positions(P, ctx):
+    """every Show.show instance threads the position: each sink call is given the position the previous one left (the caller's for the
+    first) and the function returns the position after its last write.  print_to / show_to return a position; format_to returns the
+    number of characters it wrote — a show function that returns that count is right only when it is called at position 0.  Evaluated
+    (cint) from a non-zero start position; a function that leaves the evaluated fragment is left to the other rules (counted)."""
+    from . import cint
+    rule = 'C14.show-returns-position'
+    POS0, OUT, L = 40, 2, 7
+    nev, skipped = 0, []
+    for T, fname in sorted(P.slots_of_class('Show', 'show')):
+        if not P.types[T]['unit'].startswith('src/'):
+            continue
+        fn = P.functions.get(fname)
+        if fn is None:
+            continue
+        state = {'pos': POS0, 'writes': 0}
+        bad = [None]
+
+        def sink(pos_in, what, returns_count):
+            if pos_in != state['pos']:
+                raise ShowMismatch('%s is given position %s, the previous write left the position at %s' % (what, pos_in, state['pos']))
+            state['pos'] += L
+            state['writes'] += 1
+            return L if returns_count else state['pos']
+
+        def call(nm, e, it):
+            if nm in ('print_to_with', 'show_to', 'format_to', 'format_to_va'):
+                o, p_ = (e[2][1], e[2][2]) if nm == 'show_to' else (e[2][0], e[2][1])
+                if it.ev(o) != OUT:
+                    raise cint.NoEval('a sink call on something that is not the output')
+                return sink(it.ev(p_), nm, nm.startswith('format_to'))
+            raise cint.NoEval('call %s' % nm)
+        it = cint.CInt(P, fn, atoms={('global', 'NULL'): 0, ('global', 'Terminal'): 7777}, call=call, recurse=False, strict=True, max_steps=300)
+        try:
+            r = it.run([('ep', 'self', 0), OUT, POS0])
+        except ShowMismatch as x:
+            ctx.fn(fn)
+            ctx.refuted(rule, '%s.Show.show' % T, site(fn), 'every write of a show function starts where the previous one ended: %s' % x)
+            nev += 1
+            continue
+        if r[0] != 'ret' or state['writes'] == 0:
+            skipped.append(T)
+            continue
+        nev += 1
+        ctx.fn(fn)
+        ctx.check(r[1] == state['pos'], rule, '%s.Show.show' % T, site(fn), 'shown at position %d, the function returns the position after its last write' % POS0,
+                  ['returns %s after writing %d characters from position %d (format_to returns a count, print_to / show_to a position)' % (r[1], state['pos'] - POS0, POS0)] if r[1] != state['pos'] else None)
+    ctx.note('C14.show-returns-position: %d show functions evaluated; left to the other rules (loops over the value, several cases): %s' % (nev, ', '.join(skipped)))
+    ctx.floor(rule, 5)
 
 
 def check_container_show_walk(P, ctx):
@@ -518,7 +476,21 @@ def run(ctx, load):
     check_show_to(P, ctx)
     check_position_threaded(P, ctx)
     check_container_show_walk(P, ctx)
+    check_show_positions(P, ctx)
     check_string_sink(P, ctx)
+    # too few arguments raise FormatError — also when the format is the message of a throw: the FormatError raised from inside the throw
+    # is what the handlers see, and later throws are unaffected (the try/throw/catch protocol of C07 with malformed throws, explored on
+    # the machine derived from the exception_* functions)
+    from . import rules_c07
+    Px = load(rules_c07.UNITS, 'default', [rules_c07.WITNESS])
+    ctx.config = 'default'
+    rule = 'C14.format-error-from-a-throw'
+    try:
+        summ = {nm: rules_c07.summarise(Px, nm, ctx) for nm in ('exception_try', 'exception_try_end', 'exception_try_fail', 'exception_throw', 'exception_catch')}
+        rules_c07.check_protocol(Px, ctx, summ, 2, 2, kinds=('A', 'A!'), filters=(frozenset(), frozenset({'A'}), frozenset({'FormatError'})), key='malformed-throw', rule=rule)
+    except rules_c07.Undecided as u:
+        ctx.undecided(rule, 'malformed-throw', 'src/Exception.c', str(u))
+    ctx.floor(rule, 1)
 
 
 EXPLANATION = (
